@@ -127,6 +127,11 @@ def cases(tier, seed):
         # ---- indexing
         for ix in _bad_indices(N):
             yield {'ep': 'getitem', 'N': N, 'ix': ix}
+        # too few int/slice entries made up for by new-axis entries (the guard must count modes, not produced cores); on
+        # rank-1 bonds the truncated core list is itself a valid TT, so only the guard stands between the call and a wrong tensor
+        for ix in _short_with_none(N):
+            for rk in ('r2', 'r1'):
+                yield {'ep': 'getitem', 'N': N, 'ix': ix, 'rk': rk}
         # ---- sum
         for arg in ([d], [d + 4], [0, d], -1, [-1], [-d], 'tuple', 'str', 1.5):
             yield {'ep': 'sum', 'N': N, 'arg': arg}
@@ -241,6 +246,28 @@ def _bad_indices(N):
     out.append('str')
     out.append('float')
     return out
+
+
+def _short_with_none(N):
+    d = len(N)
+    full = ['s', None, None, None]
+    part = ['s', 0, 1, None]
+    out = []
+    for addr in range(0, d):                       # number of modes addressed (< d)
+        for nn in range(1, d - addr + 2):          # number of None entries: fewer than, as many as, more than the missing modes
+            for tok in (0, full, part):
+                base = [tok] * addr
+                out.append(base + ['N'] * nn)      # trailing
+                out.append(['N'] * nn + base)      # leading
+                if addr >= 1:
+                    out.append(base[:1] + ['N'] * nn + base[1:])
+    seen, res = set(), []
+    for ix in out:
+        k = repr(ix)
+        if k not in seen and ix:
+            seen.add(k)
+            res.append(ix)
+    return res
 
 
 def _bad_perms(d):
@@ -521,7 +548,7 @@ def _ep_dot_axis(c, key):
 
 def _ep_getitem(c, key):
     N, ix = c['N'], c['ix']
-    a, ca = _t(N)
+    a, ca = _t(N, [1] * (len(N) + 1)) if c.get('rk') == 'r1' else _t(N)
     dx = ref.contract(ca)
     if ix == 'bare_int':
         index = 0
@@ -534,7 +561,10 @@ def _ep_getitem(c, key):
     else:
         index = tuple(_tok(t) for t in ix)
     raises, dense = _dense_raises(lambda: dx[index])
-    tag = ix if isinstance(ix, str) else ('len%+d' % (len([t for t in ix if t != 'E']) - len(N)) if len([t for t in ix if t != 'E']) != len(N) else
+    if 'rk' in c:
+        tag = 'short_with_newaxis.' + c['rk']
+    else:
+        tag = ix if isinstance(ix, str) else ('len%+d' % (len([t for t in ix if t != 'E']) - len(N)) if len([t for t in ix if t != 'E']) != len(N) else
                                           ('oob' if all(isinstance(t, int) for t in ix) else ('ellipsis2' if ix.count('E') > 1 else 'badtype')))
     site = 'getitem.' + tag
     if raises:
